@@ -395,63 +395,41 @@ read_file(econf_file *ef, const char *file,
       continue;
     }
 
-    /* go through all comment characters and check if one of them could be found */
-    for (size_t i = 0; i < strlen(comment); i++) {
-      p = strrchr(name, comment[i]);
-      if (p)
-      {
-	if(p==name)
+    if (ef->python_style == false) { /* not for python config files */
+      /* Comment is defined after the key/value in the same line: it starts
+	 with the first comment character which is not enclosed by quotes */
+      bool in_quotes = false;
+      size_t quotes = 0;
+      for (p = name; *p; p++) {
+	if (*p == '"') {
+	  in_quotes = !in_quotes;
+	  quotes++;
+	} else if (!in_quotes && strchr(comment, *p) != NULL)
+	  break;
+      }
+      if (!*p && quotes == 1) {
+	/* multiline string with one quote in this line:
+	   the comment can only begin after that quote */
+	p = strchr(name, '"');
+	while (*p && strchr(comment, *p) == NULL)
+	  p++;
+      }
+      if (*p) {
+	if (current_comment_after_value)
 	{
-	  /* Comment is defined in the line before the key/value line */
-	  if (current_comment_before_key)
-          {
-	    /* appending */
-	    char *content = current_comment_before_key;
-	    int ret = asprintf(&current_comment_before_key, "%s\n%s", content,
-			       p+1);
-	    if(ret<0) {
-	      free(buf);
-	      return ECONF_NOMEM;
-	    }
-	    free(content);
-	  } else {
-	    current_comment_before_key = strdup(p+1);
+	  /* appending */
+	  char *content = current_comment_after_value;
+	  int ret = asprintf(&current_comment_after_value, "%s\n%s", content,
+			     p+1);
+	  if(ret<0) {
+	    free(buf);
+	    return ECONF_NOMEM;
 	  }
-	  *p = '\0';
-	} else if (ef->python_style == false) { /* not for python config files */
-	  /* Comment is defined after the key/value in the same line */
-	  char *first_quote = strchr(name, '"');
-	  char *last_quote = strrchr(name, '"');
-	  bool delim_found = false;
-
-	  data = name;
-	  while (*data && !(isspace((unsigned)*data) ||
-			    strchr(delim, *data) != NULL))
-		  data++;
-	  if (*data && strchr(delim, *data) != NULL)
-	    delim_found = false;
-
-	  if ( first_quote==NULL || /* no quote */
-	       (first_quote!=last_quote && last_quote<p) || /* comment is in string included */
-	       (first_quote==last_quote && last_quote<p && !delim_found)) /* multiline with one quote */
-	  {
-	    if (current_comment_after_value)
-	    {
-	      /* appending */
-	      char *content = current_comment_after_value;
-	      int ret = asprintf(&current_comment_after_value, "%s\n%s", content,
-			       p+1);
-	      if(ret<0) {
-	        free(buf);
-	        return ECONF_NOMEM;
-	      }
-	      free(content);
-	    } else {
-	      current_comment_after_value = strdup(p+1);
-	    }
-	    *p = '\0';
-	  }
+	  free(content);
+	} else {
+	  current_comment_after_value = strdup(p+1);
 	}
+	*p = '\0';
       }
     }
 
